@@ -184,11 +184,11 @@ def prove(pc, goal, use_cvc5=True, timeout_ms=None, split=True):
             budget = (timeout_ms or Z3_TIMEOUT_MS)
             ok = True
             for hy, g in parts:
-                r = prove(pc + hy, g, use_cvc5=False, timeout_ms=max(1500, budget // 3), split=False)
+                r = prove(pc + hy, g, use_cvc5=False, timeout_ms=max(2500, (2 * budget) // 3), split=False)
                 if r.status != "proved":
                     ok = False
                     break
-                if time.time() - t0 > 3 * budget / 1000:
+                if time.time() - t0 > 5 * budget / 1000:
                     ok = False
                     break
             if ok:
